@@ -45,11 +45,33 @@ type TotalCase struct {
 	Props    bool                   `json:"props,omitempty"`
 	UseStep  bool                   `json:"useStep,omitempty"`
 	Deadline int                    `json:"deadlineMs"`
+	// KnotNode (Go-built specs): this node's action is replaced by a
+	// native action that binds self-containing values
+	KnotNode string `json:"knotNode,omitempty"`
 }
 
 var mutKinds = []string{"nullNode", "nullBranching", "nullBranchList", "nullBranch", "nullAction", "nullGuard", "nullPattern",
 	"badInterpreter", "badGuardInterpreter", "badSyntax", "jsonSyntax", "badBranchType", "emptyNodeName", "badTarget", "badErrorNode",
-	"numberSource", "objectSource", "arraySource", "guardObjectSource", "guardArraySource", "guardNumberSource", "guardNullSource", "bootObjectSource", "stringNode", "listNodes", "stringBranches", "numberPattern", "nullNodes", "noNodes", "badJSONPattern", "nullSource"}
+	"numberSource", "objectSource", "arraySource", "guardObjectSource", "guardArraySource", "guardNumberSource", "guardNullSource", "bootObjectSource", "stringNode", "listNodes", "stringBranches", "numberPattern", "nullNodes", "noNodes", "badJSONPattern", "nullSource", "knotAction", "knotAction", "knotGuard"}
+
+const knotSource = `var bs = _.bindings; bs.knot = {}; bs.knot.self = bs.knot; bs.ring = [1]; bs.ring.push(bs.ring); return bs;`
+
+// knotNative is the same behaviour as a native action: it binds a map
+// and a slice that contain themselves.
+func knotNative() core.Action {
+	return &core.FuncAction{F: func(ctx context.Context, bs match.Bindings, props core.StepProps) (*core.Execution, error) {
+		out := bs.Copy()
+		if out == nil {
+			out = match.Bindings{}
+		}
+		m := map[string]interface{}{}
+		m["self"] = m
+		ring := make([]interface{}, 1)
+		ring[0] = ring
+		out["knot"], out["ring"] = m, ring
+		return core.NewExecution(out), nil
+	}}
+}
 
 func genTotal(t *rapid.T) TotalCase {
 	o := sm.SpecOpts{NativeToo: true, InPlace: true, Fail: 5, GuardFail: 4, Emit: true, UserErrorNode: true, Spin: true}
@@ -76,7 +98,13 @@ func genTotal(t *rapid.T) TotalCase {
 			c.Muts = append(c.Muts, m)
 		}
 	}
+	if c.Load == "go" && rapid.IntRange(0, 5).Draw(t, "knot") == 0 {
+		c.KnotNode = rapid.SampledFrom(a.NodeNames()).Draw(t, "knotNode")
+	}
 	c.Node = rapid.SampledFrom(append(a.NodeNames(), "unknown", "error", "")).Draw(t, "at")
+	if c.KnotNode != "" && rapid.Bool().Draw(t, "atKnot") {
+		c.Node = c.KnotNode
+	}
 	c.NilBs = rapid.IntRange(0, 4).Draw(t, "nilbs") == 0
 	if !c.NilBs {
 		c.Bs = sm.GenBindings(t, "bs")
@@ -92,7 +120,7 @@ func genTotal(t *rapid.T) TotalCase {
 			// messages whose strings look like pattern variables
 			hv := rapid.SampledFrom([]interface{}{"?x", "?", "??o", "?<n", "?p", "?m", "?y"}).Draw(t, fmt.Sprintf("hostile%d", i))
 			c.Messages = append(c.Messages, map[string]interface{}{
-				rapid.SampledFrom([]string{"a", "b", "c"}).Draw(t, fmt.Sprintf("hk%d", i)): hv,
+				rapid.SampledFrom([]string{"a", "b", "c"}).Draw(t, fmt.Sprintf("hk%d", i)):  hv,
 				rapid.SampledFrom([]string{"a", "b", "c"}).Draw(t, fmt.Sprintf("hk2%d", i)): rapid.SampledFrom([]interface{}{"?x", 1.0, "?y"}).Draw(t, fmt.Sprintf("hostile2%d", i))})
 		} else {
 			c.Messages = append(c.Messages, sm.GenMessageFor(t, a, fmt.Sprintf("m%d", i)))
@@ -179,6 +207,16 @@ func applyMut(doc map[string]interface{}, m Mut, yamlKeys bool) {
 	case "nullPattern":
 		if br != nil {
 			br["pattern"] = nil
+		}
+	case "knotAction":
+		// an action that binds a value that contains itself (cannot be
+		// serialised; nothing read from JSON looks like it)
+		if n != nil {
+			n["action"] = map[string]interface{}{"interpreter": "ecmascript", "source": knotSource}
+		}
+	case "knotGuard":
+		if br != nil {
+			br["guard"] = map[string]interface{}{"interpreter": "ecmascript", "source": knotSource}
 		}
 	case "badInterpreter":
 		if n != nil {
@@ -286,11 +324,17 @@ func withWatchdog(d time.Duration, f func()) (panicked string, hung bool) {
 
 func checkTotal(c TotalCase) (v ev.Verdict) {
 	dims := 0
+	sm.CheckCycles = c.KnotNode != ""
 	v.Class("load:" + c.Load)
 	var spec *core.Spec
 	switch c.Load {
 	case "go":
 		spec = c.Spec.Build()
+		if n := spec.Nodes[c.KnotNode]; c.KnotNode != "" && n != nil {
+			n.Action, n.ActionSource = knotNative(), nil
+			v.Class("native-knot")
+			dims++
+		}
 	default:
 		// document = the Go-built spec rendered as JSON / YAML (native
 		// actions are not representable and drop out), re-read as a
@@ -474,7 +518,7 @@ func checkTotal(c TotalCase) (v ev.Verdict) {
 	}
 	// every failed action must be surfaced: designated node with the
 	// error text, or the error node with error, lastNode, lastBindings
-	if c.Load != "go" && len(c.Muts) > 0 {
+	if (c.Load != "go" && len(c.Muts) > 0) || c.KnotNode != "" {
 		return // the abstract spec no longer describes the document
 	}
 	for i, sd := range w.Strides {
